@@ -64,6 +64,7 @@ impl Runner {
     /// run one operation; false once the history has ended (first unacceptable or out-of-scope result)
     pub fn push(&mut self, op: Op) -> bool {
         if self.stopped { return false; }
+        let op = self.ex.canon(op);
         let (obs, msg) = self.ex.run(&op);
         let v = self.oracle.judge(&self.ex.keys, &op, &obs);
         self.hist.ops.push(op);
